@@ -8,6 +8,7 @@ mod oracle;
 mod props;
 mod rng;
 mod session;
+mod unit;
 
 use session::{Ctx, Report};
 
